@@ -14,6 +14,8 @@ extern "C" {
 #include "gen.h"
 #include "sha1.h"
 #include "stats.h"
+#include <ctime>
+#include <sys/stat.h>
 #include <cstdio>
 #include <cstdlib>
 #include <cstring>
@@ -83,6 +85,21 @@ extern "C" int LLVMFuzzerTestOneInput(const uint8_t* data, size_t size) {
     setenv("DBUS_TEST_HOMEDIR", g_home.c_str(), 1);
   }
   Model M;
+  // ---- sometimes the keyring already holds cookies of various ages: expired (> 7 min), too old to be handed out again
+  // (> 5 min), fresh, and dated in the future beyond the tolerated clock skew.  Whatever the server then names in a
+  // challenge must be a cookie it may still use [S DBUS_COOKIE_SHA1: "...cookies that are too old are deleted / not used"].
+  bool aged_keyring = rare(f, 3);
+  if (aged_keyring) {
+    mkdir((g_home + "/.dbus-keyrings").c_str(), 0700);
+    long now = (long)time(nullptr);
+    static const long ages[] = {-900, -500, -420, -330, -301, -200, -10, 0, 400, 100000};
+    std::string txt; int n = 1 + (int)pick(f, 5);
+    for (int i = 0; i < n; i++) { long ts = now + ages[pick(f, 10)]; char line[200]; snprintf(line, sizeof line, "%ld %ld %s\n", 1000 + (long)pick(f, 100000) * 7 + i, ts, sha1_hex("vp-secret-" + std::to_string(i) + std::to_string(ts)).c_str()); txt += line; }
+    std::string kp = g_home + "/.dbus-keyrings/org_freedesktop_general";
+    FILE* kf = fopen(kp.c_str(), "w"); if (kf) { fwrite(txt.data(), 1, txt.size(), kf); fclose(kf); chmod(kp.c_str(), 0600); }
+    g_log.push_back("keyring pre-populated with " + std::to_string(n) + " cookies of generated ages");
+    stats_class("keyring:aged");
+  }
   // ---- configuration of the server side
   int credk = (int)pick(f, 4);
   M.have_creds = credk != 3; M.sock_uid = credk == 1 ? 1 : credk == 2 ? 4242 : 0;
@@ -269,6 +286,12 @@ extern "C" int LLVMFuzzerTestOneInput(const uint8_t* data, size_t size) {
         if (!(is >> ctx >> id >> chal)) fail("challenge-format", "cookie challenge is not 'context id challenge': " + printable(payload));
         M.ctx = ctx; M.cookie_id = id; M.schal = chal;
         if (cookie_for(ctx, id).empty()) fail("challenge-cookie-missing", "server named cookie " + std::to_string(id) + " of context " + ctx + " which is not in the keyring");
+        { // the named cookie must be one the server may still hand out: not older than 5 minutes, not from the future (slack 5 s)
+          std::ifstream in(g_home + "/.dbus-keyrings/" + ctx); std::string l2; long now = (long)time(nullptr);
+          while (std::getline(in, l2)) { std::istringstream is2(l2); long i2, ts2; std::string c2; if ((is2 >> i2 >> ts2 >> c2) && i2 == id) {
+            if (now - ts2 > 300 + 5) fail("stale-cookie-used", "the server challenges with cookie " + std::to_string(id) + " created " + std::to_string(now - ts2) + " s ago (cookies older than 300 s must not be handed out)");
+            if (ts2 - now > 300 + 5) fail("future-cookie-used", "the server challenges with cookie " + std::to_string(id) + " dated " + std::to_string(ts2 - now) + " s in the future"); } }
+        }
       }
       classes += oc[0];
     }
